@@ -5,7 +5,8 @@ from vlib.core import Ctx, hexs, unhex, ddmin, load_known_findings
 ID = "C19"
 MODULES = ["IoraModel.Props.C19"]
 LEANCHECK = ["IoraModel.Props.C19", "IoraModel.Lemmas.Dns", "IoraModel.Lemmas.DnsSafe", "IoraModel.Lemmas.DnsName", "IoraModel.Lemmas.DnsRoundtrip",
-             "IoraModel.Lemmas.DnsRecords", "IoraModel.Lemmas.DnsMessage", "IoraModel.Lemmas.DnsTyped", "IoraModel.Lemmas.DnsCache", "IoraModel.Model.Dns", "IoraModel.Model.DnsCache", "IoraModel.Spec.DnsWire"]
+             "IoraModel.Lemmas.DnsRecords", "IoraModel.Lemmas.DnsMessage", "IoraModel.Lemmas.DnsTyped", "IoraModel.Lemmas.DnsCache", "IoraModel.Lemmas.DnsTransport",
+             "IoraModel.Model.Dns", "IoraModel.Model.DnsCache", "IoraModel.Model.DnsTransport", "IoraModel.Spec.DnsWire"]
 OBLIGATIONS = [
     {"id": "C19_N1a", "theorem": "Iora.C19.N1_sound", "kind": "proved",
      "statement": "Denotes m off ls next (RFC 1035 relation, any layout of compression pointers) and wire ls <= 253 -> decodeName m off = ok (dotted ls, next)"},
@@ -47,6 +48,12 @@ OBLIGATIONS = [
     {"id": "C19_N2_typed_mx", "theorem": "Iora.C19.N2_typed_mx", "kind": "proved", "statement": "typed MX = preference + exchange name, any compression"},
     {"id": "C19_N2_typed_srv", "theorem": "Iora.C19.N2_typed_srv", "kind": "proved", "statement": "typed SRV = priority, weight, port + target name, any compression"},
     {"id": "C19_N2_typed_none", "theorem": "Iora.C19.N2_typed_none", "kind": "proved", "statement": "types without a typed parser yield no typed record"},
+    {"id": "C19_N6a", "theorem": "Iora.C19.N6_contained", "kind": "proved",
+     "statement": "processResponse ends normally for arbitrary bytes and any pending set (every parser exception caught; nothing else can happen by N3)"},
+    {"id": "C19_N6b", "theorem": "Iora.C19.N6_error_completes_by_first_two_bytes", "kind": "proved",
+     "statement": "a rejected message of >= 2 bytes completes exactly the pending query keyed by its first two bytes with a parse error"},
+    {"id": "C19_N6c", "theorem": "Iora.C19.N6_ok_completes", "kind": "proved",
+     "statement": "an accepted message completes the pending query keyed by its first two bytes (= header id) with the parsed result"},
     {"id": "C19_N5", "theorem": "Iora.C19.N5_served_only_fresh", "kind": "proved",
      "statement": "for every history and clock: a served answer was stored under the same normalised key, TTL > 0, now < t + ttl, key untouched since"},
     {"id": "C19_N5b", "theorem": "Iora.C19.N5_put_ttl_is_minimum", "kind": "proved", "statement": "the TTL of put is <= the TTL of every record of the result"},
@@ -54,7 +61,7 @@ OBLIGATIONS = [
     {"id": "C19_N5d", "theorem": "Iora.C19.N5_zero_ttl_guard", "kind": "proved", "statement": "Gen: TTL 0 is never stored (F14 repair); expiry comparison is strict"},
 ]
 ANCHOR_FILES = ["include/iora/network/dns/dns_message.hpp", "include/iora/network/dns/dns_cache.hpp",
-                "include/iora/util/expiring_cache.hpp", "include/iora/network/dns/dns_types.hpp"]
+                "include/iora/util/expiring_cache.hpp", "include/iora/network/dns/dns_types.hpp", "include/iora/network/dns/dns_transport.hpp"]
 
 T_A, T_NS, T_CNAME, T_SOA, T_PTR, T_MX, T_TXT, T_AAAA, T_SRV, T_NAPTR = 1, 2, 5, 6, 12, 15, 16, 28, 33, 35
 TYPED = (T_A, T_CNAME, T_SOA, T_PTR, T_MX, T_TXT, T_AAAA, T_SRV, T_NAPTR)
@@ -524,6 +531,62 @@ def gen_mutated_cases(rng, n):
     return cases
 
 
+def gen_transport_cases(rng, n):
+    """N6: responses (valid, mutated, random, too short) handed to the real processResponse with a set of pending query ids."""
+    cases = []
+    for i in range(n):
+        k = rng.below(10)
+        msg = None
+        while msg is None:
+            msg = build_message(rng, counts=(rng.choice([0, 1, 2]), rng.choice([0, 1]), 0))
+        w = msg["wire"]
+        kinds = []
+        if k < 4:
+            pass
+        elif k < 8:
+            for _ in range(rng.choice([1, 2])):
+                w, kd = mutate(rng, w, msg["name_starts"])
+                kinds.append(kd)
+        elif k < 9:
+            w = rng.bytes(rng.choice([0, 1, 2, 3, 11, 12, 20]))
+        else:
+            w = w[:rng.choice([0, 1, 2, 5, 12])]
+        wid = int.from_bytes(w[:2], "big") if len(w) >= 2 else None
+        pend = set(rng.below(65536) for _ in range(rng.choice([0, 1, 2, 3])))
+        if wid is not None and rng.chance(3, 4):
+            pend.add(wid)
+        if wid is not None and rng.chance(1, 6):
+            pend.add(wid ^ 1)
+        ops = ["resp %s %s %s" % (rng.choice(["udp", "tcp"]), ",".join(str(x) for x in sorted(pend)) if pend else "-", hexs(w))]
+        cases.append({"cat": "transport", "ops": ops, "wire_id": wid, "pending": sorted(pend), "mut": kinds, "size": len(w)})
+    return cases
+
+
+def monitor_transport(c, impl):
+    """N6 on the implementation's answer alone: nothing escapes the callback; at most one completion, and only of the query
+    whose id is the first two bytes; every other pending query stays pending; a message that the decoder rejects completes with an error."""
+    bad = []
+    l = impl[0]
+    if l.startswith("throw") or l.startswith("crash:"):
+        return ["N6: a failure escapes the data callback: %s -> %s" % (c["ops"][0][:100], l[:80])]
+    ev, _, pend = l.partition(" | pending=")
+    left = [] if pend in ("-", "") else [int(x) for x in pend.split(",")]
+    events = [] if ev == "-" else ev.split(";")
+    if len(events) > 1:
+        bad.append("N6: more than one completion for one message: %s" % l[:100])
+    wid = c["wire_id"]
+    for e in events:
+        p = e.split(":")
+        if wid is None or int(p[1]) != wid:
+            bad.append("N6: completed query %s although the message's first two bytes are %s: %s" % (p[1], wid, c["ops"][0][:80]))
+    want_left = [x for x in c["pending"] if x != wid]
+    if wid is not None and wid in c["pending"] and not events:
+        bad.append("N6: the pending query %d (id = first two bytes) was neither completed nor failed: %s" % (wid, c["ops"][0][:80]))
+    if sorted(left) != sorted(want_left) and not bad:
+        bad.append("N6: pending set afterwards is %s, expected %s: %s" % (left, want_left, c["ops"][0][:80]))
+    return bad
+
+
 def hdr(hid=0x1234, flags=0x8180, qd=0, an=0, ns=0, ar=0):
     return b"".join(int(x).to_bytes(2, "big") for x in (hid, flags, qd, an, ns, ar))
 
@@ -930,7 +993,44 @@ def diff_snip(a, b):
 
 
 # ================================================================== run
+def replay(ctx):
+    """Re-run the op list of a replay file on the real code and the model; exit 1 if the failure is still there."""
+    obj = json.load(open(ctx.replay))
+    ops = obj.get("ops") or []
+    ctx.translate(["dns"])
+    ctx.lake_build(MODULES)
+    if not ops:
+        print("replay: nothing to run (kind=%s): the broken obligation is %s" % (obj.get("kind"), json.dumps(obj.get("broken"))[:400]))
+        return 1 if ctx.violations else 0
+    transport = ops[0].startswith("resp ")
+    hb = ctx.build_harness("harness/c19_dns_transport.cpp" if transport else "harness/c19_dns.cpp", sanitize=True,
+                           defines=[] if transport else ["_GLIBCXX_SANITIZE_VECTOR"])
+    if not hb:
+        return 1
+    cat = obj.get("category") or ("cache" if ops[0].startswith("c ") else "corpus")
+    c = {"cat": cat, "ops": ops, "tag": obj.get("tag")}
+    if obj.get("expected_by_reference"):
+        c["expect"] = obj["expected_by_reference"]
+    if transport:
+        w = unhex(ops[0].split()[3])
+        c["wire_id"] = int.from_bytes(w[:2], "big") if len(w) >= 2 else None
+        c["pending"] = [] if ops[0].split()[2] == "-" else [int(x) for x in ops[0].split()[2].split(",")]
+    (c, impl, model), = ctx.lockstep("dns", hb, [c], timeout=120)
+    for o, a, b in zip(ops, impl, model):
+        print("op    %s\n impl  %s\n model %s" % (o[:200], a[:200], b[:200]))
+    fails = monitor_transport(c, impl) if transport else (monitor_cache(c, impl) if cat == "cache" else monitor_msg(c, impl))
+    for f in fails:
+        print("PROPERTY FAILS:", f[:300])
+    still = bool(fails) or impl != model
+    print("replay: %s" % ("still failing" if still else "no longer failing"))
+    import shutil
+    shutil.rmtree(ctx.work, ignore_errors=True)
+    return 1 if still else 0
+
+
 def run(ctx: Ctx):
+    if ctx.replay:
+        return replay(ctx)
     quick = ctx.tier == "quick"
     scale = 1 if quick else 15
     rng = ctx.rng
@@ -942,7 +1042,13 @@ def run(ctx: Ctx):
             ctx.leanchecker(LEANCHECK)
     else:
         ctx.cov["obligations"] = len(OBLIGATIONS)
+    import threading
+    built = {}
+    th = threading.Thread(target=lambda: built.__setitem__("t", ctx.build_harness("harness/c19_dns_transport.cpp", sanitize=True)))
+    th.start()                                # the two sanitizer compiles run side by side
     hb = ctx.build_harness("harness/c19_dns.cpp", sanitize=True, defines=["_GLIBCXX_SANITIZE_VECTOR"])
+    th.join()
+    hbt = built.get("t")
     dist = {}
     carve_counts = {}
     known = [k for k in load_known_findings() if k.get("property") == ID and k["kind"] == "finding"]
@@ -1029,6 +1135,23 @@ def run(ctx: Ctx):
                                    "ops": c["ops"], "observed": impl, "expected_by_model": model}, found_input=False)
         if skipped_after_crash_cap:
             ctx.notes.append("%d cases not judged: the harness crashed more than 50 times and ctx.lockstep stopped restarting it" % skipped_after_crash_cap)
+        if hbt and not hung:
+            tcases = gen_transport_cases(rng.fork("transport"), 1500 * scale)
+            for c, impl, model in ctx.lockstep("dns", hbt, tcases, timeout=120 if quick else 600):
+                dist[c["cat"]] = dist.get(c["cat"], 0) + 1
+                ctx.count_case(c["ops"][0], nontrivial=not impl[0].startswith("- |"))
+                if impl[0] == "crash:too-many-crashes":
+                    continue
+                fails = monitor_transport(c, impl)
+                if fails:
+                    report_property(ctx, hbt, c, impl, model, fails)
+                elif impl != model:
+                    n_mismatch += 1
+                    if n_mismatch <= 3:
+                        ctx.violation("correspondence", "model and implementation disagree on processResponse: op `%s` impl=`%s` model=`%s`"
+                                      % (c["ops"][0][:120], impl[0][:100], model[0][:100]),
+                                      {"broken": {"correspondence": "dns lockstep (harness/c19_dns_transport.cpp vs Model/DnsTransport.lean)"},
+                                       "ops": c["ops"], "observed": impl, "expected_by_model": model}, found_input=False)
         ctx.extra["generator"] = {"pointers_emitted": ptr_total, "forward_pointers": fwd_total, "longest_pointer_chain_in_valid_messages": max_chain,
                                   "mutation_kinds": mut_kinds, "impl_outcomes": dict(sorted(outcome.items(), key=lambda kv: -kv[1])[:30])}
         # recorded finding F13A: replay its witness against the real code
@@ -1044,6 +1167,7 @@ def run(ctx: Ctx):
                         "DnsCache default TTL in [0, 2^32) seconds",
                         "AAAA text form: inet_ntop/inet_pton (libc) round-trip the 16 RDATA bytes; the harness canonicalises the text through inet_pton",
                         "message size < 2^63 (offset arithmetic is modelled in Nat; checkBounds cannot wrap)",
+                        "processResponse is modelled for one server:port and a transport mode other than Both (no TCP fallback)",
                         "cache operations are atomic steps (every ExpiringCache method holds _mutex for its whole body); the purge thread is modelled as an operation of the history"]
     return ctx.finish(level="proof", rule="a case = one op list (parse/name/rdname/enc/query ops on one generated or mutated message, or one cache history on a fresh DnsCache); "
                       "distinct = distinct op lists; non-trivial = at least one answer other than `err tooShort`")
@@ -1051,7 +1175,7 @@ def run(ctx: Ctx):
 
 NOT_PROVED = [
     "N2 typed exactness for SOA and NAPTR records (validated by lockstep + the reference-encoder monitor only; A, AAAA, TXT, CNAME, PTR, MX, SRV and the whole-response theorem are proved)",
-    "N6 processResponse containment (dns_transport.hpp) is not modelled",
+    "N6: the UDP-truncation -> TCP-fallback branch of processResponse (transport mode Both; re-sends on a live socket) is not modelled; the lockstep runs with transportMode = UDP",
     "inet_ntop text form of AAAA addresses (libc; the harness canonicalises through inet_pton)",
 ]
 
